@@ -337,5 +337,9 @@ void CDNS::CdnsDecoder::read_to_buffer()
         m_input.read(reinterpret_cast<char*>(m_buffer), BUFFER_SIZE);
         m_p = m_buffer;
         m_end = m_buffer + m_input.gcount();
+
+        // Nothing could be read (empty or unreadable input, or input length is a multiple of BUFFER_SIZE)
+        if (m_p == m_end)
+            throw CdnsDecoderEnd("End of input stream");
     }
 }
